@@ -40,7 +40,7 @@ Definition f64_to_int64 (f : f64) : Z :=
 (* math.Float64frombits *)
 Definition f64_of_bits (b : Z) : f64 := Binary.B2BSN 53 1024 (b64_of_bits b).
 
-(* ---- arithmetic and comparisons (Go: *, /, <, >, <=) ---- *)
+(* ---- arithmetic and comparisons (Go: *, /, <, >, <=, >=) ---- *)
 Definition f64_mul (x y : f64) : f64 := BinarySingleNaN.Bmult mode_NE x y.
 Definition f64_div (x y : f64) : f64 := BinarySingleNaN.Bdiv mode_NE x y.
 Definition f64_lt (x y : f64) : bool :=
@@ -49,6 +49,8 @@ Definition f64_gt (x y : f64) : bool :=
   match BinarySingleNaN.Bcompare x y with Some Gt => true | _ => false end.
 Definition f64_le (x y : f64) : bool :=
   match BinarySingleNaN.Bcompare x y with Some Lt => true | Some Eq => true | _ => false end.
+Definition f64_ge (x y : f64) : bool :=
+  match BinarySingleNaN.Bcompare x y with Some Gt => true | Some Eq => true | _ => false end.
 
 Definition f64_zero : f64 := BinarySingleNaN.B754_zero false.
 (* the constants of the Go source; all exactly representable *)
@@ -57,6 +59,11 @@ Definition f64_1_5 : f64 :=
 (* 1000 = 8796093022208000 * 2^-43 *)
 Definition f64_1000 : f64 :=
   @BinarySingleNaN.B754_finite 53 1024 false 8796093022208000 (-43) (eq_refl true).
+(* const minQPS = 1e-9 (main.go): the float64 nearest to 1e-9,
+   4835703278458517 * 2^-82, bits 0x3e112e0be826d695 *)
+Definition f64_min_qps_bits : Z := 4472406533629990549.
+Definition f64_min_qps : f64 :=
+  @BinarySingleNaN.B754_finite 53 1024 false 4835703278458517 (-82) (eq_refl true).
 (* float64(time.Second) = 1e9 = 8388608000000000 * 2^-23 *)
 Definition f64_second : f64 :=
   @BinarySingleNaN.B754_finite 53 1024 false 8388608000000000 (-23) (eq_refl true).
